@@ -6,7 +6,7 @@ HERE = os.path.dirname(os.path.dirname(os.path.abspath(__file__)))
 log = open(sys.argv[1]).read().split('\n')
 rows = []
 for l in log:
-    m = re.match(r'(CAUGHT|MISSED)\s+(\S+)\s+(.*)', l)
+    m = re.match(r'(CAUGHT|MISSED|INCONCL)\s+(\S+)\s+(.*)', l)
     if not m:
         continue
     st, name, rest = m.groups()
